@@ -254,6 +254,8 @@ func allKinds() []kind {
 		{"honest/leading-zero-ack", func(g *gen) *caseSpec { return g.honestCase("", g.okState(), g.refOf(1, true)) }},
 		{"honest/dup-value", func(g *gen) *caseSpec { return g.honestCase("", g.okState(), g.refOf(4, false)) }},
 		{"honest/p6", func(g *gen) *caseSpec { return g.honestCase("", g.okState(), g.refOf(6, g.rng.Intn(2) == 0)) }},
+		{"honest/leading-zero-slot-commit", func(g *gen) *caseSpec { return g.honestCase("", g.okState(), g.refOf(6, false)) }},
+		{"honest/leading-zero-slot-ack", func(g *gen) *caseSpec { return g.honestCase("", g.okState(), g.refOf(4, true)) }},
 		{"honest/p5-ack", func(g *gen) *caseSpec { return g.honestCase("", g.okState(), g.refOf(5, true)) }},
 
 		// ------------------------------------------------------------ height / root
